@@ -36,22 +36,13 @@ Proof. exact oop_history_refines. Qed.
 Theorem oop_close_reopen : forall chunk, 1 <= chunk -> forall st, oop_ok st -> o_old (oop_finish chunk st) = oop_abs st.
 Proof. exact oop_reopen. Qed.
 
-Theorem oop_read_as_documented : forall chunk, 1 <= chunk -> forall st n, oop_ok st ->
-  snd (oop_get_doc chunk st n) = firstn n (oop_abs st) /\
-  oop_abs (fst (oop_get_doc chunk st n)) = oop_abs st /\ oop_ok (fst (oop_get_doc chunk st n)).
-Proof. exact oop_get_doc_correct. Qed.
-
-(* the read the code performs while a write is pending and the old file is open loses data:
-   full statement, its refutation; the partial theorem is oop_histories_refine (reads only after a flush) *)
-Definition oop_read_preserves_field_statement : Prop := oop_get_statement.
-Theorem oop_read_preserves_field_refuted : ~ oop_get_statement.
-Proof. exact oop_get_refuted. Qed.
+(* a read through the same handle finishes the pending write first and returns the flat array *)
+Theorem oop_read_returns_field : forall chunk, 1 <= chunk -> forall st n, oop_ok st ->
+  snd (oop_get chunk st n) = firstn n (oop_abs st) /\
+  oop_abs (fst (oop_get chunk st n)) = oop_abs st /\ oop_ok (fst (oop_get chunk st n)).
+Proof. exact oop_get_correct. Qed.
 
 (* ---- SIE: the cursor machine of sie.c ---- *)
-Definition sie_write_refines_statement : Prop := sie_refines_statement.
-Theorem sie_write_refines_refuted : ~ sie_refines_statement.
-Proof. exact sie_refines_refuted. Qed.
-
 Definition sie_record_ends_increase_statement : Prop := sie_increasing_statement.
 Theorem sie_record_ends_increase_refuted : ~ sie_increasing_statement.
 Proof. exact sie_increasing_refuted. Qed.
@@ -73,13 +64,16 @@ Theorem phase_write_is_index_shift : forall (A : Type) (zero : A) a shift p d,
   phase_out zero a shift p d = array_write zero a (p + shift) d.
 Proof. exact @phase_out_is_shifted_write. Qed.
 
-(* MPLEX: full statement, refutation (unequal rates), partial (equal rates) *)
-Definition mplex_write_statement : Prop := mplex_statement.
-Theorem mplex_write_refuted : ~ mplex_statement.
-Proof. exact mplex_refuted. Qed.
-Theorem mplex_write_partial : forall (A : Type) (dflt : A) spf cnt val (old new : list A),
-  0 < spf -> length old = length new -> mplex_code dflt spf spf cnt val old new = mplex_spec spf spf cnt val old new.
-Proof. exact @mplex_equal_rates. Qed.
+(* MPLEX: the write does what inverting the read formula dictates, for all sample rates *)
+Theorem mplex_write_follows_read_formula : forall (A : Type) (dflt : A) spf1 spf2 cnt val (old new : list A),
+  length old = length new -> mplex_code dflt spf1 spf2 cnt val old new = mplex_spec spf1 spf2 cnt val old new.
+Proof. exact @mplex_code_is_spec. Qed.
+
+Theorem mplex_write_changes_exactly_the_selected_samples : forall (A : Type) (dflt : A) spf1 spf2 cnt val (old new : list A) i k,
+  length old = length new -> k < length old ->
+  nth k (mplex_spec_from i spf1 spf2 cnt val old new) dflt =
+  if (nth ((i + k) * spf2 / spf1) cnt (val + 1) =? val)%Z then nth k new dflt else nth k old dflt.
+Proof. exact @mplex_spec_nth_from. Qed.
 
 (* hypotheses are satisfiable *)
 Example oop_ok_inhabited : oop_ok (mkOop [[1%Z]; [2%Z]] true true 1 (Some [[7%Z]])).
